@@ -197,11 +197,12 @@ class AsyncServer(base_server.BaseServer):
                     del self.sockets[sid]
         else:
             clients = self.sockets.copy()
-            await asyncio.wait([
-                asyncio.create_task(client.close(
-                    reason=self.reason.SERVER_DISCONNECT))
-                for client in clients.values()
-            ])
+            if clients:
+                await asyncio.wait([
+                    asyncio.create_task(client.close(
+                        reason=self.reason.SERVER_DISCONNECT))
+                    for client in clients.values()
+                ])
             # only forget the clients that were closed: a session that
             # connects while the calls above are pending must not be dropped
             for sid in clients:
